@@ -18,6 +18,43 @@ Notation BC := (BC rules F).
 Notation BS := (BS rules env F rank).
 Notation BInv := (BInv rules env F rank).
 
+(* the task side when no stored result changes and task records change at most in their wait counts and deferred scan requests *)
+Lemma BT_rules_change_gen root s s' : BT root s ->
+  is_usedb s' = is_usedb s -> is_epoch s' = is_epoch s ->
+  (forall t y, task_of s t = Some y -> exists z, task_of s' t = Some z /\ core2 z = core2 y) ->
+  (forall t z, task_of s' t = Some z -> exists y, task_of s t = Some y /\ core2 z = core2 y) ->
+  (forall k, stored s' k = stored s k) -> (forall k, deps s' k = deps s k) -> (forall k, res_sig (res_of s' k) = res_sig (res_of s k)) ->
+  (forall k, curk s k -> curk s' k) -> (forall k, curk s' k -> curk s k \/ stored s k = cvK k) ->
+  (forall rq, Unrouted s' rq -> Unrouted s rq) -> (forall rq, Unrouted s rq -> iq_task rq <> None -> Unrouted s' rq) ->
+  is_fininreq s' = is_fininreq s -> is_fintasks s' = is_fintasks s ->
+  (In (dummy_root root) (is_inreq s') \/ (exists k, In (dummy_root root) (ri_paused (rinfo_of s' k))) \/ is_in_progress s' root = true \/ curk s' root) ->
+  BT root s'.
+Proof.
+  intros [T1 T2 T3 T4 T5 T6 T7] Hu He Hfw Hbw Hst Hdp Hsg Hc1 Hc2 HU2 HU1 Hf Hft Hroot.
+  assert (O2 : forall rq, Oreq2 s' rq -> Oreq2 s rq).
+  { intros rq [H|[(t0 & z & Hz & Hin)|H]]; [left; auto| |right; right; now rewrite <- Hf].
+    destruct (Hbw t0 z Hz) as (y & Hy & Hc). apply core2_fields in Hc. destruct Hc as (_ & _ & _ & Hr & _). right. left. exists t0, y. split; auto. now rewrite <- Hr. }
+  assert (O1 : forall rq, Oreq2 s rq -> iq_task rq <> None -> Oreq2 s' rq).
+  { intros rq [H|[(t0 & z & Hz & Hin)|H]] Hnd; [left; auto| |right; right; now rewrite Hf].
+    destruct (Hfw t0 z Hz) as (y & Hy & Hc). apply core2_fields in Hc. destruct Hc as (_ & _ & _ & Hr & _). right. left. exists t0, y. split; auto. now rewrite Hr. }
+  constructor.
+  - congruence.
+  - congruence.
+  - intros k Hc. rewrite Hst. destruct (Hc2 k Hc) as [H|H]; auto.
+  - intros rq Ho. destruct (T4 rq (O2 rq Ho)) as [Hw Hsg']. split; auto. intros t Hk Hor. destruct (Hw t Hk Hor) as (H1 & ti & Hg & Hl). split; auto.
+    destruct (Hfw t ti Hg) as (z & Hz & Hc). apply core2_fields in Hc. destruct Hc as (Hs & _). exists z. split; auto. now rewrite Hs.
+  - intros rq. rewrite Hf. intros Hin. now apply Hc1, T5.
+  - intros t z Hz. destruct (Hbw t z Hz) as (ti & Hg & Hc). apply core2_fields in Hc. destruct Hc as (E1 & E2 & E3 & E4 & E5).
+    destruct (T6 t ti Hg) as [K1 K2 K3 K4 K5 K6 K7 K8 K9 K10 K11]. constructor; rewrite ?E1, ?E2, ?E3, ?E5; auto.
+    + intros i Hu' Hn0. destruct (K3 i Hu' Hn0) as (rq & H1 & H2 & H3). exists rq. split; auto. apply O1; auto. congruence.
+    + rewrite Hft, Hst. exact K6.
+    + intros i y Hi' Hy. rewrite Hdp. destruct (K7 i y Hi' Hy) as [(rq & H1 & H2 & H3)|H]; [left; exists rq; split; auto; apply HU1; auto; congruence|now right].
+    + intros d. rewrite Hdp. intros Hin. destruct (K8 d Hin) as [H|(rq & H1 & H2 & H3)]; [left; now apply Hc1|right; exists rq; split; auto; apply O1; auto; congruence].
+    + intros d. rewrite Hdp. apply K9.
+    + rewrite Hft, Hsg. exact K11.
+  - exact Hroot.
+Qed.
+
 (* the task side when no task record and no stored result changes *)
 Lemma BT_rules_change root s s' : BT root s ->
   is_usedb s' = is_usedb s -> is_epoch s' = is_epoch s -> (forall t, task_of s' t = task_of s t) ->
@@ -28,25 +65,9 @@ Lemma BT_rules_change root s s' : BT root s ->
   (In (dummy_root root) (is_inreq s') \/ (exists k, In (dummy_root root) (ri_paused (rinfo_of s' k))) \/ is_in_progress s' root = true \/ curk s' root) ->
   BT root s'.
 Proof.
-  intros [T1 T2 T3 T4 T5 T6 T7] Hu He Htk Hst Hdp Hsg Hc1 Hc2 HU2 HU1 Hf Hft Hroot.
-  assert (O2 : forall rq, Oreq2 s' rq -> Oreq2 s rq).
-  { intros rq [H|[(t0 & z & Hz & Hin)|H]]; [left; auto|right; left; exists t0, z; now rewrite <- Htk|right; right; now rewrite <- Hf]. }
-  assert (O1 : forall rq, Oreq2 s rq -> iq_task rq <> None -> Oreq2 s' rq).
-  { intros rq [H|[(t0 & z & Hz & Hin)|H]] Hnd; [left; auto|right; left; exists t0, z; now rewrite Htk|right; right; now rewrite Hf]. }
-  constructor.
-  - congruence.
-  - congruence.
-  - intros k Hc. rewrite Hst. destruct (Hc2 k Hc) as [H|H]; auto.
-  - intros rq Ho. destruct (T4 rq (O2 rq Ho)) as [Hw Hsg']. split; auto. intros t Hk Hor. destruct (Hw t Hk Hor) as (H1 & ti & Hg & Hl). split; auto. exists ti. now rewrite Htk.
-  - intros rq. rewrite Hf. intros Hin. now apply Hc1, T5.
-  - intros t ti. rewrite Htk. intros Hg. destruct (T6 t ti Hg) as [K1 K2 K3 K4 K5 K6 K7 K8 K9 K10 K11]. constructor; auto.
-    + intros i Hu' Hn0. destruct (K3 i Hu' Hn0) as (rq & H1 & H2 & H3). exists rq. split; auto. apply O1; auto. congruence.
-    + rewrite Hft, Hst. exact K6.
-    + intros i y Hi' Hy. rewrite Hdp. destruct (K7 i y Hi' Hy) as [(rq & H1 & H2 & H3)|H]; [left; exists rq; split; auto; apply HU1; auto; congruence|now right].
-    + intros d. rewrite Hdp. intros Hin. destruct (K8 d Hin) as [H|(rq & H1 & H2 & H3)]; [left; now apply Hc1|right; exists rq; split; auto; apply O1; auto; congruence].
-    + intros d. rewrite Hdp. apply K9.
-    + rewrite Hft, Hsg. exact K11.
-  - exact Hroot.
+  intros HT Hu He Htk. apply BT_rules_change_gen; auto.
+  - intros t y Hy. exists y. rewrite Htk. auto.
+  - intros t z Hz. exists z. rewrite <- Htk. auto.
 Qed.
 
 Lemma res_ext s s' k : stored s' k = stored s k -> cAt s' k = cAt s k -> bAt s' k = bAt s k -> deps s' k = deps s k ->
@@ -203,3 +224,87 @@ Proof.
     + intros k'. autorewrite with iv. rewrite !R0. reflexivity.
     + unfold s0. autorewrite with iv. repeat split; auto. right. right. right. right. repeat split; auto. unfold deps. rewrite Ed. discriminate.
 Qed.
+
+Lemma BS_weaken x s : BS None s -> BS x s.
+Proof. intros [S1 S2 S3]. constructor; auto. intros k Hk. destruct (S2 k Hk) as (B1 & B2 & [B3|[B3|B3]]); [auto|auto|discriminate]. Qed.
+
+Lemma unscanned_not_curk s k : is_scanned s k = false -> kind_of s k <> KScanning ->
+  ~ curk s k /\ idle s k /\ (kind_of s k = KIncomplete \/ kind_of s k = KComplete).
+Proof.
+  unfold is_scanned, is_complete, curk, idle, bAt. intros H Hs. destruct (kind_of s k) eqn:E; try discriminate; try contradiction.
+  - repeat split; try discriminate; auto. intros [H1 _]. discriminate.
+  - cbn [kind_eqb andb] in H. apply N.eqb_neq in H. repeat split; try discriminate; auto. intros [_ H2]. contradiction.
+Qed.
+
+(* scanRule gives an unscanned idle rule its new state kind *)
+Lemma BInv_rekind root x' su su1 k kd' : BInv root None su -> sreq_scanning su ->
+  (forall k', rinfo_of su1 k' = if N.eqb k' k then ri_with_kind kd' (rinfo_of su k) else rinfo_of su k') ->
+  is_tasks su1 = is_tasks su -> is_inreq su1 = is_inreq su -> is_fininreq su1 = is_fininreq su -> is_fintasks su1 = is_fintasks su ->
+  is_usedb su1 = is_usedb su -> is_epoch su1 = is_epoch su ->
+  is_scanned su k = false -> kind_of su k <> KScanning ->
+  (forall rq, In rq (is_toscan su1) <-> (kd' = KScanning /\ rq = mkSReq k 0%nat None false false) \/ In rq (is_toscan su)) ->
+  (kd' = KNeedsToRun \/
+   (kd' = KDoesNotNeedToRun /\ bAt su k <> 0 /\ valid rules env k (res_of su k) = true /\ deps su k = [] /\ pending_for su k) \/
+   (kd' = KScanning /\ bAt su k <> 0 /\ valid rules env k (res_of su k) = true /\ x' = Some k)) ->
+  BInv root x' su1.
+Proof.
+  intros (HT & HC & HS) Hss RI Htk Hi Hf Hft Hu He Hsc Hns Hts Hcase.
+  destruct (unscanned_not_curk su k Hsc Hns) as (Hnc & Hidle & Hkk).
+  assert (Hkd : kd' = KNeedsToRun \/ kd' = KDoesNotNeedToRun \/ kd' = KScanning) by (destruct Hcase as [H|[(H & _)|(H & _)]]; auto).
+  assert (RO : forall k', k' <> k -> rinfo_of su1 k' = rinfo_of su k') by (intros k' Hne; rewrite RI; apply N.eqb_neq in Hne; now rewrite Hne).
+  assert (HR : forall k', res_of su1 k' = res_of su k').
+  { intros k'. unfold res_of. rewrite RI. destruct (N.eqb k' k) eqn:E; auto. apply N.eqb_eq in E. now subst. }
+  assert (HK : forall k', kind_of su1 k' = if N.eqb k' k then kd' else kind_of su k').
+  { intros k'. unfold kind_of. rewrite RI. destruct (N.eqb k' k); auto. }
+  assert (HL : forall k', ri_paused (rinfo_of su1 k') = ri_paused (rinfo_of su k') /\ ri_deferred (rinfo_of su1 k') = ri_deferred (rinfo_of su k') /\
+                         ri_cancelled (rinfo_of su1 k') = ri_cancelled (rinfo_of su k')).
+  { intros k'. rewrite RI. destruct (N.eqb k' k) eqn:E; auto. apply N.eqb_eq in E. now subst. }
+  assert (Hst : forall k', stored su1 k' = stored su k') by (intros; unfold stored; now rewrite HR).
+  assert (Hca : forall k', cAt su1 k' = cAt su k') by (intros; unfold cAt; now rewrite HR).
+  assert (Hba : forall k', bAt su1 k' = bAt su k') by (intros; unfold bAt; now rewrite HR).
+  assert (Hdp : forall k', deps su1 k' = deps su k') by (intros; unfold deps; now rewrite HR).
+  assert (Hcu : forall k', curk su1 k' <-> curk su k').
+  { intros k'. unfold curk. rewrite HK, Hba, He. destruct (N.eqb k' k) eqn:E; [|tauto]. apply N.eqb_eq in E. subst k'.
+    split; [intros [H _]; destruct Hkd as [->|[->| ->]]; discriminate|intros H; contradiction]. }
+  assert (Htask : forall t, task_of su1 t = task_of su t) by (intros; unfold task_of; now rewrite Htk).
+  assert (HU : forall rq, Unrouted su rq <-> Unrouted su1 rq) by (apply Unrouted_same; auto; intros k'; apply HL).
+  assert (Hip : forall k', is_in_progress su1 k' = is_in_progress su k').
+  { intros k'. unfold is_in_progress. rewrite HK. destruct (N.eqb k' k) eqn:E; auto. apply N.eqb_eq in E. subst k'.
+    destruct Hidle as [I1 I2]. destruct Hkd as [->|[->| ->]]; destruct (kind_of su k); auto; contradiction. }
+  split; [|split].
+  - apply (BT_rules_change root su su1 HT); auto.
+    + intros k'. now rewrite HR.
+    + intros k' H. now apply Hcu.
+    + intros k' H. left. now apply Hcu.
+    + intros rq H. now apply HU.
+    + intros rq H _. now apply HU.
+    + rewrite Hi, Hip. destruct (b_root _ _ _ _ _ _ HT) as [H|[(k0 & H)|[H|H]]]; auto; [right; left; exists k0; now rewrite (proj1 (HL k0))|right; right; right; now apply Hcu].
+  - apply (BC_kinds su su1 HC); auto.
+    + intros k'. now rewrite HR.
+    + intros k'. rewrite (proj2 (proj2 (HL k'))). apply (b_nc _ _ _ HC).
+    + intros k'. unfold idle. rewrite HK. destruct (N.eqb k' k) eqn:E; auto. apply N.eqb_eq in E. now subst.
+    + intros k' H. now apply Hcu.
+    + intros k'. left. split; auto. intros H. now apply Hcu.
+  - apply (BS_kinds None x' su su1 HS); auto.
+    + intros k' H. now apply Hcu.
+    + intros rq [H|[(k0 & H)|(t0 & z & Hz & H)]].
+      * apply Hts in H. destruct H as [[_ ->]|H]; [right; intros j d Hj; cbn [sq_index] in Hj; lia|left; now left].
+      * left. right. left. exists k0. now rewrite <- (proj1 (proj2 (HL k0))).
+      * left. right. right. exists t0, z. now rewrite <- Htask.
+    + intros k'. rewrite HK. destruct (N.eqb k' k) eqn:E.
+      * apply N.eqb_eq in E. subst k'. intros ->. right. destruct Hcase as [H|[(H & _)|(_ & B1 & B2 & B3)]]; try discriminate.
+        rewrite Hba, (valid_stored su su1 k (Hst k)). auto.
+      * intros Hk. left. split; auto. destruct (HL k') as (-> & -> & _). intros [H|[H|H]]; auto; discriminate.
+    + intros k'. rewrite HK. destruct (N.eqb k' k) eqn:E.
+      * apply N.eqb_eq in E. subst k'. intros ->. right. destruct Hcase as [H|[(_ & B1 & B2 & B3 & B4)|(H & _)]]; try discriminate.
+        assert (Hrow : rowok su k) by (apply (b_rows _ _ _ HC); auto).
+        destruct (row_clean root su k HT Hrow B2) as (v & Hv & Hcv & Hco); [rewrite B3; intros d []|].
+        split; [|split; [|split]].
+        -- exists v. split; [now rewrite Hst|]. split; auto. apply (concl_same rules F su su1 k v (Hdp k)); auto.
+        -- rewrite Hdp, B3. intros d [].
+        -- now rewrite Hba.
+        -- destruct B4 as [(rq & H1 & H2)|(rq & H1 & H2)]; [left; exists rq; split; auto; apply Hts; now right|right; exists rq; now rewrite Hi].
+      * intros Hk. left. split; auto. split; auto.
+        intros [(rq & H1 & H2)|(rq & H1 & H2)]; [left; exists rq; split; auto; apply Hts; now right|right; exists rq; now rewrite Hi].
+Qed.
+End Inc.
